@@ -40,6 +40,9 @@ theories/V1/Tok1Proof.vos theories/V1/Tok1Proof.vok theories/V1/Tok1Proof.requir
 theories/V1/Matcher1Proof.vo theories/V1/Matcher1Proof.glob theories/V1/Matcher1Proof.v.beautified theories/V1/Matcher1Proof.required_vo: theories/V1/Matcher1Proof.v theories/Base/Utf8.vo theories/V1/Tok1.vo theories/V1/Matcher1.vo
 theories/V1/Matcher1Proof.vio: theories/V1/Matcher1Proof.v theories/Base/Utf8.vio theories/V1/Tok1.vio theories/V1/Matcher1.vio
 theories/V1/Matcher1Proof.vos theories/V1/Matcher1Proof.vok theories/V1/Matcher1Proof.required_vos: theories/V1/Matcher1Proof.v theories/Base/Utf8.vos theories/V1/Tok1.vos theories/V1/Matcher1.vos
+theories/V1/Matcher1Straddle.vo theories/V1/Matcher1Straddle.glob theories/V1/Matcher1Straddle.v.beautified theories/V1/Matcher1Straddle.required_vo: theories/V1/Matcher1Straddle.v theories/Base/Utf8.vo theories/V1/Tok1.vo theories/V1/Matcher1.vo theories/V1/Matcher1Proof.vo
+theories/V1/Matcher1Straddle.vio: theories/V1/Matcher1Straddle.v theories/Base/Utf8.vio theories/V1/Tok1.vio theories/V1/Matcher1.vio theories/V1/Matcher1Proof.vio
+theories/V1/Matcher1Straddle.vos theories/V1/Matcher1Straddle.vok theories/V1/Matcher1Straddle.required_vos: theories/V1/Matcher1Straddle.v theories/Base/Utf8.vos theories/V1/Tok1.vos theories/V1/Matcher1.vos theories/V1/Matcher1Proof.vos
 theories/V2/Tok.vo theories/V2/Tok.glob theories/V2/Tok.v.beautified theories/V2/Tok.required_vo: theories/V2/Tok.v theories/Base/Utf8.vo
 theories/V2/Tok.vio: theories/V2/Tok.v theories/Base/Utf8.vio
 theories/V2/Tok.vos theories/V2/Tok.vok theories/V2/Tok.required_vos: theories/V2/Tok.v theories/Base/Utf8.vos
@@ -154,12 +157,12 @@ theories/Props/C07.vos theories/Props/C07.vok theories/Props/C07.required_vos: t
 theories/Props/C11.vo theories/Props/C11.glob theories/Props/C11.v.beautified theories/Props/C11.required_vo: theories/Props/C11.v theories/Base/Utf8.vo theories/V2/Tok.vo theories/V2/TokTables.vo theories/V2/TokInv.vo theories/V2/Normalize.vo theories/V2/NormProof.vo theories/V2/NormTables.vo
 theories/Props/C11.vio: theories/Props/C11.v theories/Base/Utf8.vio theories/V2/Tok.vio theories/V2/TokTables.vio theories/V2/TokInv.vio theories/V2/Normalize.vio theories/V2/NormProof.vio theories/V2/NormTables.vio
 theories/Props/C11.vos theories/Props/C11.vok theories/Props/C11.required_vos: theories/Props/C11.v theories/Base/Utf8.vos theories/V2/Tok.vos theories/V2/TokTables.vos theories/V2/TokInv.vos theories/V2/Normalize.vos theories/V2/NormProof.vos theories/V2/NormTables.vos
-theories/Props/C13.vo theories/Props/C13.glob theories/Props/C13.v.beautified theories/Props/C13.required_vo: theories/Props/C13.v theories/Base/Utf8.vo theories/V1/Tok1.vo theories/V1/Matcher1.vo theories/V1/Tok1Proof.vo theories/V1/Matcher1Proof.vo
-theories/Props/C13.vio: theories/Props/C13.v theories/Base/Utf8.vio theories/V1/Tok1.vio theories/V1/Matcher1.vio theories/V1/Tok1Proof.vio theories/V1/Matcher1Proof.vio
-theories/Props/C13.vos theories/Props/C13.vok theories/Props/C13.required_vos: theories/Props/C13.v theories/Base/Utf8.vos theories/V1/Tok1.vos theories/V1/Matcher1.vos theories/V1/Tok1Proof.vos theories/V1/Matcher1Proof.vos
-theories/Props/C17.vo theories/Props/C17.glob theories/Props/C17.v.beautified theories/Props/C17.required_vo: theories/Props/C17.v theories/Base/Utf8.vo theories/V1/Tok1.vo theories/V1/Matcher1.vo theories/V1/Tok1Proof.vo theories/V1/Matcher1Proof.vo
-theories/Props/C17.vio: theories/Props/C17.v theories/Base/Utf8.vio theories/V1/Tok1.vio theories/V1/Matcher1.vio theories/V1/Tok1Proof.vio theories/V1/Matcher1Proof.vio
-theories/Props/C17.vos theories/Props/C17.vok theories/Props/C17.required_vos: theories/Props/C17.v theories/Base/Utf8.vos theories/V1/Tok1.vos theories/V1/Matcher1.vos theories/V1/Tok1Proof.vos theories/V1/Matcher1Proof.vos
+theories/Props/C13.vo theories/Props/C13.glob theories/Props/C13.v.beautified theories/Props/C13.required_vo: theories/Props/C13.v theories/Base/Utf8.vo theories/V1/Tok1.vo theories/V1/Matcher1.vo theories/V1/Tok1Proof.vo theories/V1/Matcher1Proof.vo theories/V1/Matcher1Straddle.vo
+theories/Props/C13.vio: theories/Props/C13.v theories/Base/Utf8.vio theories/V1/Tok1.vio theories/V1/Matcher1.vio theories/V1/Tok1Proof.vio theories/V1/Matcher1Proof.vio theories/V1/Matcher1Straddle.vio
+theories/Props/C13.vos theories/Props/C13.vok theories/Props/C13.required_vos: theories/Props/C13.v theories/Base/Utf8.vos theories/V1/Tok1.vos theories/V1/Matcher1.vos theories/V1/Tok1Proof.vos theories/V1/Matcher1Proof.vos theories/V1/Matcher1Straddle.vos
+theories/Props/C17.vo theories/Props/C17.glob theories/Props/C17.v.beautified theories/Props/C17.required_vo: theories/Props/C17.v theories/Base/Utf8.vo theories/V1/Tok1.vo theories/V1/Matcher1.vo theories/V1/Tok1Proof.vo theories/V1/Matcher1Proof.vo theories/V1/Matcher1Straddle.vo
+theories/Props/C17.vio: theories/Props/C17.v theories/Base/Utf8.vio theories/V1/Tok1.vio theories/V1/Matcher1.vio theories/V1/Tok1Proof.vio theories/V1/Matcher1Proof.vio theories/V1/Matcher1Straddle.vio
+theories/Props/C17.vos theories/Props/C17.vok theories/Props/C17.required_vos: theories/Props/C17.v theories/Base/Utf8.vos theories/V1/Tok1.vos theories/V1/Matcher1.vos theories/V1/Tok1Proof.vos theories/V1/Matcher1Proof.vos theories/V1/Matcher1Straddle.vos
 theories/Props/C12.vo theories/Props/C12.glob theories/Props/C12.v.beautified theories/Props/C12.required_vo: theories/Props/C12.v theories/V2/Load.vo
 theories/Props/C12.vio: theories/Props/C12.v theories/V2/Load.vio
 theories/Props/C12.vos theories/Props/C12.vok theories/Props/C12.required_vos: theories/Props/C12.v theories/V2/Load.vos
